@@ -339,10 +339,6 @@ impl ConstructorFactory {
         if pat_stack.is_empty() {
             return Ok(false);
         }
-        if pat_stack.contains(&Pattern::Wildcard) {
-            return Ok(true);
-        }
-
         let (first, mut rest) = pat_stack.split_first(handler, span)?;
         match first {
             // its assumed that no one is ever going to list every string
